@@ -75,8 +75,9 @@ fn c06_tw_kernel_state_closed_leg() {
     assert!(result.is_none() == feasible);
     if let Some(violation) = &result {
         assert!(violation.code == ViolationCode(1));
-        // a `stopped` verdict claims that no later position can work either: only issued for shift-end breaches here
-        assert!(!violation.stopped || !within_shift);
+        // a `stopped` verdict makes the evaluator abandon the other time windows of this leg and all later legs, so it
+        // must not depend on the target: here it can only come from the shift end lying before prev's or next's window
+        assert!(!violation.stopped || shift_end < prev.place.time.start || shift_end < next.place.time.start);
     }
     kani::cover!(result.is_none(), "accepted");
     kani::cover!(result.is_none() && arrival < target.place.time.start, "accepted-with-waiting");
